@@ -84,6 +84,43 @@ CLAIMS = {
    note=PROOF_NOTE + "PARTIAL: SHA-256 and BIP-340 are trusted (secp256k1); injectivity of the canonical serialization is checked by mutation, not proved.",
    technique="Lean 4 proof (parametric in hash and signature scheme) + differential correspondence with hashlib.sha256 and mutation testing of the real verify",
    design="6/C08"),
+ 'C04': dict(
+   text="Lean theorems over ALL histories of store/remove/vanish/deletion/reopen (induction over the operation list, any events, any sizes): the store "
+        "invariant (everything indexed is in the map; offsets strictly increasing, 8-aligned, past the header, each event within the end marker; ids "
+        "unique) holds in every reachable state; a successful store's offset reads back the stored event immediately and after any continuation "
+        "without rebuild (refused stores, file growth, removals included); every retrievable event reads back by id and by offset as itself; a "
+        "new offset is beyond all earlier ones (never reused); reopen is the identity. Correspondence: histories with event sizes 0 B..3 map chunks, "
+        "every returned offset and every id re-read after every step on the real store vs model; direct oracle: bytes equal an independent Python "
+        "encoding of what was submitted.",
+   note=PROOF_NOTE + 'Modelled, not verified: LMDB (ordered maps, snapshot reads inside a write transaction, atomic commit), the mmap-append event map; the seven index tables are modelled as functions of the set of indexed events with range scans as filter+key-order sort. ' + "'Forever' across process restarts relies on the kernel keeping file contents (modelled).",
+   technique="Lean 4 proof (invariant by induction over operation sequences) + differential correspondence with a byte-level direct oracle",
+   design="6/C04"),
+ 'C12': dict(
+   text="Lean theorem: for every state and event, if store_event returns anything but Ok, every table (index, id markers, address markers, extra) is exactly "
+        "what it was, hence every lookup, marker query, find_events answer and entry count is unchanged; earlier offsets still read back. Direct, model-free "
+        "oracle on the real store: the whole probe battery before a failing store equals the battery after it, over histories aimed at failures after "
+        "effects (k-th foreign tag after k-1 own ones, replaced after pre-removal, LMDB key-size error after earlier tags).",
+   note=PROOF_NOTE + 'Modelled, not verified: LMDB (ordered maps, snapshot reads inside a write transaction, atomic commit), the mmap-append event map; the seven index tables are modelled as functions of the set of indexed events with range scans as filter+key-order sort. ' + "The bytes of a refused event stay in the map (not an observable of this property; rebuild reclaims them).",
+   technique="Lean 4 proof (case analysis of the transaction discipline) + model-free before/after battery oracle + differential correspondence",
+   design="6/C12"),
+ 'C16': dict(
+   text="Lean theorems: reopen is the identity; rebuild keeps id markers, address markers with times and extra tables verbatim, keeps exactly the retrievable "
+        "events (permutation), answers every lookup by id identically, re-establishes the invariant, holds only the retrievable events in the new map "
+        "and uses at most 8 + sum(len+7) bytes. Direct model-free oracle: battery before = battery after reopen/rebuild at every position of histories with "
+        "removed/replaced/deleted/ephemeral/failed leftovers, long and binary identifiers, repeated rebuilds, extra tables; exact event-space accounting; both "
+        "backup files exist.",
+   note=PROOF_NOTE + 'Modelled, not verified: LMDB (ordered maps, snapshot reads inside a write transaction, atomic commit), the mmap-append event map; the seven index tables are modelled as functions of the set of indexed events with range scans as filter+key-order sort. ' + "Invariance of find_events answers under rebuild is established by the battery oracle (query results before = after), not by a theorem.",
+   technique="Lean 4 proof (permutation/invariant lemmas) + model-free before/after battery oracle + differential correspondence",
+   design="6/C16"),
+ 'C18': dict(
+   text="Lean theorems: remove_event makes exactly the event with that id unretrievable (filter), leaves markers, extra tables and the map untouched, leaves every "
+        "other event readable, and leaves no marker (a removed event is not refused as duplicate/deleted because of the removal); vanish only removes index "
+        "entries and touches nothing else; storing an ephemeral event succeeds and leaves the retrievable set unchanged. That vanish removes exactly the "
+        "authored events plus p-tagged gift wraps is decided by correspondence + the abstract specification after every step (gift wraps naming the author "
+        "first / later / as a non-first value / in upper case).",
+   note=PROOF_NOTE + 'Modelled, not verified: LMDB (ordered maps, snapshot reads inside a write transaction, atomic commit), the mmap-append event map; the seven index tables are modelled as functions of the set of indexed events with range scans as filter+key-order sort. ' + "PARTIAL: exactness of vanish's target set is not a theorem yet (needs completeness of the author and kind+tag query plans).",
+   technique="Lean 4 proof + differential correspondence with the abstract specification as direct oracle",
+   design="6/C18"),
 }
 
 checks = []
